@@ -36,7 +36,8 @@ SIG_GEOM = "Distribution.geometry|lazy-default-geometry-cached-on-conditional-or
 # worlds
 # =============================================================================================================
 
-GRAPHS = ["hier", "gmrf", "lognormal", "reggauss", "forms", "nested", "twolik", "rename", "unnamed"]
+GRAPHS = ["hier", "gmrf", "lognormal", "reggauss", "forms", "nested", "twolik", "rename", "unnamed", "coincide", "buffers"]
+SIG_BUF = "Distribution._condition|callable-result-stored-by-reference"
 
 
 def _mat(rows):
@@ -99,7 +100,11 @@ def build_world(cuqi, graph, variant=0):
         add("ga", Gamma(np.array([1.0, 2.0]), 0.5, name="ga"))
         # a callable with three arguments: staged conditioning goes through functools.partial objects
         add("g3", Gaussian(lambda a, b, c: a + b * c, 1, geometry=2, name="g3"))
-        dims.update(gc=2, gp=2, gs=2, gq=2, gm=2, gg=2, ga=2, mean=2, m=2, v=1, g3=2, a=2, b=2, c=2)
+        # L22 shipped defaults: nothing but the geometry given (conditional on mean and cov)
+        add("gd", Gaussian(geometry=2, name="gd"))
+        # L23 a user subclass of a cuqi distribution (exact-type vs isinstance dispatch)
+        add("gsub", _subclass(Gaussian)(np.array([1.0, -1.0]), lambda e: e, name="gsub"))
+        dims.update(gc=2, gp=2, gs=2, gq=2, gm=2, gg=2, ga=2, mean=2, m=2, v=1, g3=2, a=2, b=2, c=2, gd=2, cov=1, gsub=2, e=1)
     elif graph == "nested":
         s = add("s", Gaussian(np.zeros(1), 1, name="s"))
         x = add("x", Gaussian(np.zeros(2), lambda s: np.exp(s), name="x"))
@@ -124,6 +129,34 @@ def build_world(cuqi, graph, variant=0):
         add("z", Gaussian(np.ones(2), 2, name="z"))
         add("q", Gamma(np.array([1.0, 2.0]), 1, name="q"))
         dims.update(x=2, z=2, q=2)
+    elif graph == "coincide":
+        # L17 a conditioning variable named like the attribute it enters (through a non-identity callable)
+        cv = add("cov", Gamma(1, 1, name="cov"))
+        x = add("x", Gaussian(np.zeros(2), cov=lambda cov: 1 / cov, name="x"))
+        rt = add("rate", Gamma(2, 1, name="rate"))
+        g = add("g", Gamma(np.array([1.0, 2.0]), rate=lambda rate: 2 * rate, name="g"))
+        add("J", JointDistribution(cv, x))
+        add("J2", JointDistribution(rt, g))
+        dims.update(cov=1, x=2, rate=1, g=2)
+    elif graph == "buffers":
+        # L19 user callables that fill and return one and the same work array on every call
+        bz, bv, bs = np.zeros(2), np.zeros(2), np.zeros(2)
+
+        def mean_buf(z):
+            bz[:] = z
+            return bz
+
+        def cov_buf(v):
+            bv[:] = v
+            return bv
+
+        def shape_buf(s):
+            bs[:] = s
+            return bs
+        add("x", Gaussian(mean_buf, cov_buf, geometry=2, name="x"))
+        add("L", Lognormal(mean_buf, 0.5 * np.eye(2), name="L"))
+        add("g", Gamma(shape_buf, 1.0, name="g"))
+        dims.update(x=2, L=2, g=2, z=2, v=2, s=2)
     elif graph == "unnamed":
         # names are inferred lazily from the Python stack: the labels below are the variable names
         t = Gaussian(np.zeros(2), lambda r: r)
@@ -138,6 +171,24 @@ def build_world(cuqi, graph, variant=0):
         raise ValueError(graph)
     return objs, dims
 
+
+
+_SUBCLASSES = {}
+
+
+def _subclass(base):
+    """a trivial user subclass (defined outside the cuqi package)"""
+    if base not in _SUBCLASSES:
+        _SUBCLASSES[base] = type("User" + base.__name__, (base,), {})
+    return _SUBCLASSES[base]
+
+
+def class_tag(obj):
+    """class name used by the heap model: a user subclass is tagged with its nearest cuqi base class"""
+    for c in type(obj).__mro__:
+        if (c.__module__ or "").startswith("cuqi"):
+            return c.__name__
+    return type(obj).__name__
 
 
 def fixed_name(obj):
@@ -155,10 +206,28 @@ def fixed_name(obj):
     return False
 
 
+SCALE_NAMES = {"d", "l", "s", "w", "v", "q", "r", "e", "cov", "rate", "prec", "shape", "u2"}
+
+
 def val_for(name, dim, k):
-    """deterministic positive dyadic value for variable `name` (k-th variant)"""
+    """deterministic value for variable `name`; k = 0,1,2: positive dyadic float arrays; k = 3: an exact zero inside (L18; only for
+    location-like variables); k = 4: integer dtype (L20); k = 5: a plain Python list / scalar (declaration style)"""
     base = (sum(ord(c) for c in name) % 5) + 1
+    if k == 3:
+        if name in SCALE_NAMES:
+            k = 0
+        else:
+            return np.array([0.0] + [(base + i) / 4.0 for i in range(1, dim)])
+    if k == 4:
+        return np.array([base + i for i in range(dim)], dtype=np.int64)
+    if k == 5:
+        v = [float(base + i) / 2.0 for i in range(dim)]
+        return v if dim > 1 else v[0]
     return np.array([(base + i + 2 * k) / 4.0 for i in range(dim)])
+
+
+def _cp(v):
+    return v.copy() if hasattr(v, "copy") else v
 
 
 # =============================================================================================================
@@ -208,6 +277,8 @@ class World:
         self.labels = [lb for lb, _ in objs]
         self.n0 = len(self.live)
         self.passed = []
+        self.state = {}
+        self.returned = []
         for nm_ in ("mean", "cov", "prec", "rate", "shape", "bogus"):      # names used by the malformed stream
             self.dims.setdefault(nm_, 1)
 
@@ -217,11 +288,27 @@ class World:
 
     def kw(self, names, k):
         d_ = {nm: val_for(nm, self.dims[nm], k) for nm in names}
-        self.passed.append((d_, {nm: v.copy() for nm, v in d_.items()}))      # to detect in-place modification of arguments
+        self.passed.append((d_, {nm: _cp(v) for nm, v in d_.items()}))      # to detect in-place modification of arguments
         return d_
 
     def mutated_arguments(self):
         return [nm for d_, c_ in self.passed for nm in d_ if not np.array_equal(d_[nm], c_[nm])]
+
+    def state_kw(self, names, k):
+        """L15: the SAME array objects on every call, overwritten in place with the current values"""
+        for nm in names:
+            if nm not in self.state:
+                self.state[nm] = np.zeros(self.dims[nm])
+            self.state[nm][:] = val_for(nm, self.dims[nm], k % 3)
+        return {nm: self.state[nm] for nm in names}
+
+    def keep(self, raw):
+        """remember a returned value and its canonical form: it must not change later (L15, retroactive change)"""
+        self.returned.append((raw, canon(raw)))
+        return ("val", canon(raw))
+
+    def changed_later(self):
+        return [i for i, (raw, c) in enumerate(self.returned) if canon(raw) != c]
 
     def run_op(self, op):
         """Execute one op; returns ("obj", object) | ("val", canonical value)."""
@@ -230,6 +317,9 @@ class World:
         if self.graph == "unnamed":
             t, r, J, u = self.live[:4]      # noqa: F841 -- the Python variable names cuqi's name inference will find
         obj = self.live[op["i"]] if "i" in op else None
+        if ("i" in op and obj is None) or ("j" in op and self.live[op["j"]] is None) or any(self.live[j] is None for j in op.get("js", [])):
+            # the operation that was planned to make this operand failed in this world (only on a changed tree)
+            return ("val", ["err", "MissingOperand", "an earlier operation did not produce the object it was planned to produce"])
         if kind == "cond":
             _r = _try(lambda: obj(**self.kw(op["names"], op["k"])))
             return self._objres(_r)
@@ -237,10 +327,17 @@ class World:
             _r = _try(lambda: obj(*[val_for(nm, self.dims[nm], op["k"]) for nm in op["names"]]))
             return self._objres(_r)
         if kind == "logd":
-            return ("val", canon(_try(lambda: obj.logd(**self.kw(op["names"], op["k"])))))
+            if type(obj).__name__ == "_StackedJointDistribution":
+                return self.keep(_try(lambda: obj.logd(np.concatenate([np.atleast_1d(np.asarray(val_for(nm, self.dims[nm], op["k"] % 3), dtype=float)) for nm in op["names"]]))))
+            return self.keep(_try(lambda: obj.logd(**self.kw(op["names"], op["k"]))))
+        if kind == "logd_state":
+            return self.keep(_try(lambda: obj.logd(**self.state_kw(op["names"], op["k"]))))
+        if kind == "stack":
+            _r = _try(lambda: obj._as_stacked())
+            return self._objres(_r)
         if kind == "grad":
-            return ("val", canon(_try(lambda: obj.gradient(**self.kw(op["names"], op["k"])) if len(op["names"]) != 1
-                                      else obj.gradient(val_for(op["names"][0], self.dims[op["names"][0]], op["k"])))))
+            return self.keep(_try(lambda: obj.gradient(**self.kw(op["names"], op["k"])) if len(op["names"]) != 1
+                                  else obj.gradient(val_for(op["names"][0], self.dims[op["names"][0]], op["k"]))))
         if kind == "sample":
             def f():
                 rng = np.random.RandomState(op["seed"])
@@ -311,9 +408,9 @@ class World:
         np.random.seed(op["seed"])
         try:
             with contextlib.redirect_stdout(io.StringIO()):
-                if op["iface"] == "new":
+                if op["iface"] in ("new", "new-mh"):
                     M = cuqi.experimental.mcmc
-                    strat = {"x": M.LinearRTO(maxit=5), "d": M.Conjugate(), "l": M.Conjugate()}
+                    strat = {"x": M.LinearRTO(maxit=5) if op["iface"] == "new" else M.MH(scale=0.2), "d": M.Conjugate(), "l": M.Conjugate()}
                     s = M.HybridGibbs(obj_t, strat)
                     s.sample(op["Ns"])
                     sm = s.get_samples()
@@ -349,6 +446,10 @@ class World:
             fp["cond"] = _try(lambda: list(obj.get_conditioning_variables()))
         fp["dim"] = _try(lambda: obj.dim)
         fp["geom"] = _try(lambda: self._geom(obj.geometry))
+        if type(obj).__name__ == "_StackedJointDistribution" and isinstance(names, list) and all(nm in self.dims for nm in names):
+            for k in (0, 1):
+                fp["logd%d" % k] = _try(lambda: obj.logd(np.concatenate([val_for(nm, self.dims[nm], k) for nm in names])))
+            return fp
         if isinstance(names, list) and all(nm in self.dims for nm in names):
             for k in (0, 1):
                 fp["logd%d" % k] = _try(lambda: obj.logd(**self.kw(names, k)))
@@ -478,8 +579,12 @@ def plan_sequence(cuqi, rng, graph, variant, nops, force=None):
                     choices += ["mh"]
                 if len(P.live) >= 2:
                     choices += ["mkjoint"]
+                if isinstance(obj, Dist) and _try(lambda: obj.is_cond) is True:
+                    choices += ["logd_state", "logd_state"]
+                if type(obj) is JD:
+                    choices += ["stack"]
                 kind = rng.choice(choices)
-                k = rng.randrange(3)
+                k = rng.choice([0, 1, 2, 0, 1, 2, 3, 4, 5])
                 if kind == "cond":
                     r = rng.random()
                     if not names:
@@ -504,8 +609,10 @@ def plan_sequence(cuqi, rng, graph, variant, nops, force=None):
                     if isinstance(obj, Dist) and not isinstance(obj, JD) and len(sub) == len(names):
                         poskeys[-1] = "_main_parameter"     # Distribution: last positional argument is the main parameter
                     op = {"op": "condpos", "i": i, "names": sub, "k": k, "poskeys": poskeys}
-                elif kind in ("logd", "grad"):
+                elif kind in ("logd", "grad", "logd_state"):
                     op = {"op": kind, "i": i, "names": names, "k": k}
+                elif kind == "stack":
+                    op = {"op": "stack", "i": i}
                 elif kind == "sample":
                     op = {"op": "sample", "i": i, "N": rng.choice([1, 2]), "seed": rng.randrange(100)}
                 elif kind == "misc":
@@ -518,14 +625,14 @@ def plan_sequence(cuqi, rng, graph, variant, nops, force=None):
                         continue
                     op = {"op": "tolik", "i": i, "name": nm, "k": k}
                 elif kind == "gibbs":
-                    op = {"op": "gibbs", "i": i, "iface": rng.choice(["new", "legacy"]), "Ns": rng.choice([2, 3]), "seed": rng.randrange(100)}
+                    op = {"op": "gibbs", "i": i, "iface": rng.choice(["new", "legacy", "new-mh"]), "Ns": rng.choice([1, 2, 3]), "seed": rng.randrange(100)}
                 elif kind == "mh":
                     op = {"op": "mh", "i": i, "iface": rng.choice(["new", "legacy"]), "Ns": 3, "seed": rng.randrange(100)}
                 elif kind == "mkjoint":
                     cands = [j for j, obj_d in enumerate(P.live) if isinstance(obj_d, (Dist, Lik)) and not isinstance(obj_d, JD) and fixed_name(obj_d)]
                     if len(cands) < 2:
                         continue
-                    js = rng.sample(cands, rng.choice([2, 2, 3]) if len(cands) >= 3 else 2)
+                    js = rng.sample(cands, rng.choice([1, 2, 2, 3]) if len(cands) >= 3 else rng.choice([1, 2]))   # L21: also a joint of ONE density
                     op = {"op": "mkjoint", "js": js}
         r = P.run_op(op)
         op = dict(op)
@@ -574,6 +681,8 @@ class Snap:
         import scipy.sparse as sp
         if isinstance(v, (float, np.floating, int, np.integer)):
             return ("num", float(v).hex())
+        if isinstance(v, (list, tuple)) and all(isinstance(x, (int, float)) for x in v):
+            return ("pylist", type(v).__name__, repr(v))
         if isinstance(v, np.ndarray):
             if v.dtype == object:
                 return ("objarr", id(v))
@@ -642,7 +751,7 @@ class Snap:
             i += 1
         res = []
         for l in range(len(self.objs)):
-            cls = type(self.objs[l]).__name__
+            cls = class_tag(self.objs[l])
             if l in scratch:
                 cls = "Scratch." + cls
             res.append("(%s, %s) :: %s" % (cstr("__class__"), "VStr " + cstr(cls), clist(out[l])))
@@ -718,11 +827,11 @@ def execute_with_snapshots(cuqi, plan):
     W = World(cuqi, plan["graph"], plan["variant"])
     S = Snap(cuqi)
     steps, values = [], {}
-    hb = S.heap(W.live)
+    hb = S.heap([o_ for o_ in W.live if o_ is not None])
     for k, op in enumerate(plan["ops"]):
         n_before = len(hb)
         r = W.run_op(op)
-        roots = list(W.live)
+        roots = [o_ for o_ in W.live if o_ is not None]
         res_loc = None
         if r[0] == "obj":
             W.live.append(r[1])
@@ -730,6 +839,8 @@ def execute_with_snapshots(cuqi, plan):
             res_loc = S.loc(r[1])
         else:
             values[k] = r[1]
+            if op.get("makes"):
+                W.live.append(None)     # keep the numbering of the plan: the object was not produced (only on a changed tree)
         ha = S.heap(roots)
         steps.append({"k": k, "op": op, "before": hb, "after": ha, "n_before": n_before, "res": res_loc,
                       "made": r[0] == "obj", "err": (r[1] if r[0] == "val" and isinstance(r[1], list) and r[1][:1] == ["err"] else None), "cls": type(W.live[op["i"]]).__name__ if "i" in op else "JointDistribution",
@@ -752,9 +863,11 @@ def twin_check(cuqi, plan, values_A, W_A):
         if rB is None or rB[0] != "val" or rB[1] != vA:
             bad.append((t, {"op": ops[t], "in_interleaving": _short(vA), "alone": _short(rB[1] if rB else None)}))
     # final fingerprints of every live object
-    fpsA = [canon(W_A.fingerprint(obj_)) for obj_ in W_A.live]
+    fpsA = [canon(W_A.fingerprint(obj_)) if obj_ is not None else None for obj_ in W_A.live]
     made_idx = [k for k, op in enumerate(ops) if op.get("makes")]
     for i in range(len(W_A.live)):
+        if W_A.live[i] is None:
+            continue
         fake = {"graph": plan["graph"], "variant": plan["variant"], "n0": plan["n0"], "ops": ops + [{"op": "fp", "i": i}]}
         keep = needed_ops(fake, len(ops))
         (rB, _) = replay_subset(cuqi, fake, keep, len(ops))
@@ -800,6 +913,9 @@ def find_culprit(cuqi, plan, target):
 
 def classify_failure(cuqi, plan, target):
     """signature = culprit call site + mechanism (which field of the victim's object graph was written)"""
+    if plan["graph"] == "buffers":
+        # dedicated graph of the finding: callables returning one reused array; a conditioned copy keeps the returned array by reference
+        return SIG_BUF, None
     c, keep, fake, t = find_culprit(cuqi, plan, target)
     if c is None:
         return "C11|interleaving-dependent-value|no-single-culprit", None
@@ -878,7 +994,7 @@ def class_hints(cuqi, S):
     out = {}
     for obj in S.objs:
         if isinstance(obj, cuqi.distribution.Distribution) and not isinstance(obj, cuqi.distribution.JointDistribution):
-            cls = type(obj).__name__
+            cls = class_tag(obj)
             if cls in out or cls == "RegularizedGaussian":
                 continue
             out[cls] = [v for v in (get_writeable_attributes(obj) + get_writeable_properties(obj)) if v not in ignore]
@@ -900,8 +1016,8 @@ MODELLED_REFUSALS = ("is not a mutable, conditioning variable or parameter name"
 
 def model_step_expr(st, plan, W, S, hints):
     op = st["op"]
-    if plan["graph"] == "reggauss":
-        return None
+    if st["cls"] == "RegularizedGaussian" and "_main_parameter" in op.get("poskeys", []):
+        return None         # positional main parameter of a RegularizedGaussian: handed on to the inner Gaussian, not modelled
     if not st["made"]:
         # refusal outcomes: when the implementation refused with one of the refusals the model knows, the model must refuse too
         if op["op"] in ("cond", "condpos") and st.get("err") and any(m in st["err"][2] for m in MODELLED_REFUSALS) \
@@ -920,12 +1036,14 @@ def model_step_expr(st, plan, W, S, hints):
         data = S.enc(val_for(op["name"], W.dims[op["name"]], op["k"]))
         return "check_tolik %s %s %s (%s) %s %s" % (hints, cheap(hb), cnat(i_loc), data, cheap(ha), cnat(st["res"]))
     if kind == "apply":
+        if type(W.live[op["j"]]).__name__ == "RegularizedGaussian":
+            return None     # the dimension is read through the inner Gaussian's geometry: not modelled for model application
         j_loc = S.locs[id(W.live[op["j"]])]
         return "check_apply %s %s %s %s %s" % (cheap(hb), cnat(i_loc), cnat(j_loc), cheap(ha), cnat(st["res"]))
     return None
 
 
-EVAL_OPS = ("logd", "grad", "sample", "misc", "pdf", "gibbs", "mh", "fp")
+EVAL_OPS = ("logd", "logd_state", "grad", "sample", "misc", "pdf", "gibbs", "mh", "fp")
 
 
 def frame_expr(st, inline=False):
@@ -948,8 +1066,10 @@ def names_kept(cuqi, plan, W):
     for op in plan["ops"]:
         if not op.get("makes"):
             continue
-        res = W.live[idx]
+        res = W.live[idx] if idx < len(W.live) else None
         idx += 1
+        if res is None:
+            continue
         if op["op"] not in ("cond", "condpos", "tolik") or "i" not in op:
             continue
         src = W.live[op["i"]]
@@ -978,6 +1098,8 @@ def cases_for_plan(cuqi, plan, with_heap=True):
         nk = names_kept(cuqi, plan, W)
         if nk:
             fail, sig = "sig=cond|result-name-differs-from-original; " + nk, "cond|result-name-differs-from-original"
+    if not fail and W.changed_later():
+        fail, sig = "sig=C11|returned-value-changed-later; values returned by earlier evaluations changed afterwards (returned arrays are views of state that later operations overwrite): result numbers %s" % W.changed_later(), "C11|returned-value-changed-later"
     if not fail and W.mutated_arguments():
         fail, sig = "sig=C11|argument-array-modified-in-place; arrays passed as conditioning / evaluation values were modified: %s" % W.mutated_arguments(), "C11|argument-array-modified-in-place"
     cases.append(Case(expr="true", meta={"kind": "twin", "plan": plan}, cell="twin/" + plan["graph"], kind="DECISION",
@@ -1028,8 +1150,13 @@ def run(ctx):
         for r in range(nseq):
             plans.append(plan_sequence(cuqi, rng, graph, r, rng.randint(max(3, nops // 2), nops)))
     opcount = {}
+    # graph `buffers` (finding: a callable's reused result array is stored by reference): while the defect is present the
+    # content tokens of sibling copies change under them, also where no behaviour differs; its heap cases are generated only
+    # once the witness no longer fails (repaired tree), the behavioural twin cases always
+    vals_, _, W_, _ = execute_with_snapshots(cuqi, WITNESS_BUF)
+    buffers_defect = bool(twin_check(cuqi, WITNESS_BUF, vals_, W_))
     for plan in plans:
-        cs, steps = cases_for_plan(cuqi, plan)
+        cs, steps = cases_for_plan(cuqi, plan, with_heap=not (plan["graph"] == "buffers" and buffers_defect))
         cases += cs
         for st in steps:
             opcount[st["op"]["op"]] = opcount.get(st["op"]["op"], 0) + 1
@@ -1109,10 +1236,16 @@ WITNESS_GEOM = {"graph": "lognormal", "variant": 1, "n0": 5, "ops": [
     {"op": "sample", "i": 5, "N": 1, "seed": 1, "makes": False}]}
 
 
+WITNESS_BUF = {"graph": "buffers", "variant": 0, "n0": 3, "ops": [
+    {"op": "cond", "i": 0, "names": ["z", "v"], "k": 0, "makes": True},
+    {"op": "cond", "i": 0, "names": ["z", "v"], "k": 1, "makes": True},
+    {"op": "logd", "i": 3, "names": ["x"], "k": 0, "makes": False}]}
+
+
 def known_witnesses(ctx):
     import cuqi
     out = {}
-    for sig, plan in ((SIG_CONST, WITNESS_CONST), (SIG_GEOM, WITNESS_GEOM)):
+    for sig, plan in ((SIG_CONST, WITNESS_CONST), (SIG_GEOM, WITNESS_GEOM), (SIG_BUF, WITNESS_BUF)):
         values, steps, W, S = execute_with_snapshots(cuqi, plan)
         bad = twin_check(cuqi, plan, values, W)
         out[sig] = (bool(bad), json.dumps(bad[0][1], default=str)[:300] if bad else "witness interleaving gives identical values")
@@ -1124,7 +1257,7 @@ def replay(ctx, meta):
     m = meta.get("meta", meta)
     plan = m.get("plan") or {"witness": m.get("witness")}
     if "witness" in plan:
-        plan = {SIG_CONST: WITNESS_CONST, SIG_GEOM: WITNESS_GEOM}.get(plan["witness"])
+        plan = {SIG_CONST: WITNESS_CONST, SIG_GEOM: WITNESS_GEOM, SIG_BUF: WITNESS_BUF}.get(plan["witness"])
     print("interleaving on graph %r (variant %s):" % (plan["graph"], plan["variant"]))
     W0 = World(cuqi, plan["graph"], plan["variant"])
     for i, lb in enumerate(W0.labels):
@@ -1195,15 +1328,15 @@ def fixed_plans(cuqi):
         {"op": "logd", "i": 7, "names": ["x"], "k": 2, "makes": False},
     ]})
     # staged conditioning of a three-argument callable (partial of a partial); forms graph: g3 is object 7
-    P.append({"graph": "forms", "variant": 0, "n0": 8, "ops": [
-        {"op": "cond", "i": 7, "names": ["a"], "k": 0, "makes": True},            # 8: c1 = g3(a)
-        {"op": "logd", "i": 8, "names": ["b", "c", "g3"], "k": 1, "makes": False},
-        {"op": "cond", "i": 8, "names": ["b"], "k": 1, "makes": True},            # 9: c2 = c1(b)
-        {"op": "cond", "i": 8, "names": ["b"], "k": 2, "makes": True},            # 10: sibling
-        {"op": "logd", "i": 8, "names": ["b", "c", "g3"], "k": 1, "makes": False},
-        {"op": "cond", "i": 9, "names": ["c"], "k": 0, "makes": True},            # 11
-        {"op": "logd", "i": 9, "names": ["c", "g3"], "k": 0, "makes": False},
-        {"op": "logd", "i": 11, "names": ["g3"], "k": 0, "makes": False},
+    P.append({"graph": "forms", "variant": 0, "n0": 10, "ops": [
+        {"op": "cond", "i": 7, "names": ["a"], "k": 0, "makes": True},            # 10: c1 = g3(a)
+        {"op": "logd", "i": 10, "names": ["b", "c", "g3"], "k": 1, "makes": False},
+        {"op": "cond", "i": 10, "names": ["b"], "k": 1, "makes": True},           # 11: c2 = c1(b)
+        {"op": "cond", "i": 10, "names": ["b"], "k": 2, "makes": True},           # 12: sibling
+        {"op": "logd", "i": 10, "names": ["b", "c", "g3"], "k": 1, "makes": False},
+        {"op": "cond", "i": 11, "names": ["c"], "k": 0, "makes": True},           # 13
+        {"op": "logd", "i": 11, "names": ["c", "g3"], "k": 0, "makes": False},
+        {"op": "logd", "i": 13, "names": ["g3"], "k": 0, "makes": False},
     ]})
     # Lognormal with both parameters conditional: first evaluation through pdf, before and after other evaluations
     P.append({"graph": "lognormal", "variant": 0, "n0": 5, "ops": [
@@ -1220,6 +1353,35 @@ def fixed_plans(cuqi):
         {"op": "cond", "i": 3, "names": ["q"], "k": 0, "makes": True},            # 4
         {"op": "cond", "i": 4, "names": ["u"], "k": 0, "makes": True},            # 5: EvaluatedDensity
         {"op": "cond", "i": 3, "names": ["q", "u"], "k": 1, "makes": True},       # 6: EvaluatedDensity in one step
+    ]})
+    # L15: the same state arrays overwritten in place between evaluations; L16: stacked joint; retroactive change of returned values
+    P.append({"graph": "nested", "variant": 0, "n0": 4, "ops": [
+        {"op": "logd_state", "i": 1, "names": ["s", "x"], "k": 0, "makes": False},
+        {"op": "logd_state", "i": 1, "names": ["s", "x"], "k": 1, "makes": False},
+        {"op": "logd_state", "i": 3, "names": ["x", "s"], "k": 0, "makes": False},
+        {"op": "logd_state", "i": 3, "names": ["x", "s"], "k": 2, "makes": False},
+        {"op": "stack", "i": 3, "makes": True},                                    # 4
+        {"op": "logd", "i": 4, "names": ["x", "s"], "k": 0, "makes": False},
+        {"op": "logd", "i": 3, "names": ["x", "s"], "k": 0, "makes": False},
+    ]})
+    # a joint that keeps two distributions and carries an ndarray-valued evaluated density, evaluated repeatedly
+    P.append({"graph": "hier", "variant": 0, "n0": 6, "ops": [
+        {"op": "cond", "i": 5, "names": ["x", "d"], "k": 0, "makes": True},       # 6: joint(l, y|l) + ED(d) + ED(x: ndarray)
+        {"op": "logd", "i": 6, "names": ["l", "y"], "k": 0, "makes": False},
+        {"op": "logd", "i": 6, "names": ["l", "y"], "k": 0, "makes": False},
+        {"op": "logd", "i": 6, "names": ["l", "y"], "k": 1, "makes": False},
+    ]})
+    # L21 a joint of a single density; L20/declaration styles: integer arrays and lists as conditioning values
+    P.append({"graph": "forms", "variant": 0, "n0": 10, "ops": [
+        {"op": "mkjoint", "js": [0], "makes": True},                              # 10: JointDistribution(gc)
+        {"op": "cond", "i": 10, "names": [], "k": 0, "makes": True},              # 11
+        {"op": "logd", "i": 10, "names": ["gc"], "k": 0, "makes": False},
+        {"op": "cond", "i": 5, "names": ["m", "v"], "k": 4, "makes": True},       # 12: integer values
+        {"op": "cond", "i": 5, "names": ["m", "v"], "k": 5, "makes": True},       # 13: list / scalar values
+        {"op": "logd", "i": 12, "names": ["gg"], "k": 0, "makes": False},
+        {"op": "cond", "i": 9, "names": ["e"], "k": 1, "makes": True},            # 14: user subclass conditioned
+        {"op": "logd", "i": 9, "names": ["e", "gsub"], "k": 0, "makes": False},
+        {"op": "cond", "i": 8, "names": ["mean", "cov"], "k": 3, "makes": True},  # 15: defaults-only Gaussian, zero in the mean
     ]})
     # distribution conditioned, likelihood conditioned, names
     P.append({"graph": "hier", "variant": 1, "n0": 6, "ops": [
